@@ -251,7 +251,7 @@ func c12Run(c *ev.Ctx, k c12Case, single bool) {
 }
 
 func checkC12(c *ev.Ctx) {
-	c.Rule("yubiagent.ServeAgent called synchronously on (bytes.Reader, bytes.Buffer) with the real *server (NewServer through the dial seam, remote mode) over the real shim and the harness underlying agent. Streams: every message code 0..255 x {code only, +00, +FF, +4 zero bytes} (wait frames use awaited codes 40/255), the empty frame, ~90 grammar-derived canonical and truncated frames (both add-hardware-certificate encodings, slot names, wait, every standard agent request incl. constraint bytes, raw-forward requests; a size ladder of well-formed sign / raw / add requests with bodies of 64 KiB, 256 KiB, 256 KiB+1, 1 MiB, 4 MiB and exactly 16 MiB, alone and between small requests; every ordered pair over 8 and triple over 5 medium/large requests on one connection; every large frame up to 1 MiB cut inside its body at every power of two >= 4096 and its neighbours (body and stream offsets), alone and after a complete request), prefix pathologies (0..3 prefix bytes; declared 1, 2, 16MiB, 16MiB+1, 2^31, 2^32-1 with 0/1/all body bytes), every ordered pair of a 37-piece representative set, every piece on a SECOND connection after an earlier connection to the same server ended in one of 8 ways, every triple over a 20-piece subset (thorough: all triples, quadruples over 14). Oracle: no crash, framed output, one response per well-formed request in order with the expected type/content, service ends only at malformed frames and then with an error, clean end returns nil, a stream that ends inside a frame ends with an error, allocation bound for oversized declarations. non-trivial = well-formed request answered; distinct by (frame, position)")
+	c.Rule("yubiagent.ServeAgent called synchronously on (bytes.Reader, bytes.Buffer) with the real *server (NewServer through the dial seam, remote mode) over the real shim and the harness underlying agent. Streams: every message code 0..255 x {code only, +00, +FF, +4 zero bytes} (wait frames use awaited codes 40/255), the empty frame, ~90 grammar-derived canonical and truncated frames (both add-hardware-certificate encodings, slot names, wait, every standard agent request incl. constraint bytes, raw-forward requests; a frame-length sweep: codes {200, 20, 27, 13, 31, 33} x every body length 1..2100 for the raw-forwarded code, windows of 13 around every multiple of 128 for the others, and within 6 of every power of two up to 2^17, each followed by a list request; a size ladder of well-formed sign / raw / add requests with bodies of 64 KiB, 256 KiB, 256 KiB+1, 1 MiB, 4 MiB and exactly 16 MiB, alone and between small requests; every ordered pair over 8 and triple over 5 medium/large requests on one connection; every large frame up to 1 MiB cut inside its body at every power of two >= 4096 and its neighbours (body and stream offsets), alone and after a complete request), prefix pathologies (0..3 prefix bytes; declared 1, 2, 16MiB, 16MiB+1, 2^31, 2^32-1 with 0/1/all body bytes), every ordered pair of a 37-piece representative set, every piece on a SECOND connection after an earlier connection to the same server ended in one of 8 ways, every triple over a 20-piece subset (thorough: all triples, quadruples over 14). Oracle: no crash, framed output, one response per well-formed request in order with the expected type/content, service ends only at malformed frames and then with an error, clean end returns nil, a stream that ends inside a frame ends with an error, allocation bound for oversized declarations. non-trivial = well-formed request answered; distinct by (frame, position)")
 	c.Assume("frames are classified well-formed only when they are canonical encodings produced by the harness grammar (x/crypto's own client for standard requests); for everything else either 'answered' or 'connection ended with an error' is accepted", "awaited codes below 40 block by design and are explored under C20")
 	c12Frames = map[string]frameSpec{}
 	gf := grammarFrames()
@@ -287,6 +287,34 @@ func checkC12(c *ev.Ctx) {
 		n++
 	}
 	c.Sample(c12Case{Pieces: []c12Piece{{Frame: "hardcert-legacy-held-key"}}})
+	// frame-length sweep: one code of every dispatch class (raw-forwarded unknown code, forwarded smartcard and extension
+	// requests, a standard request, an add-hardware-certificate request, a slot request) x EVERY body length 1..2100, and
+	// every length within 6 of a power of two up to 2^17 - a fixed-size scratch buffer or a length-class switch anywhere on
+	// the path shows at its boundary only
+	{
+		lens := map[int]bool{}
+		for L := 1; L <= 2100; L++ {
+			lens[L] = true
+		}
+		for k := 11; k <= 17; k++ {
+			for d := -6; d <= 6; d++ {
+				lens[1<<k+d] = true
+			}
+		}
+		nl := 0
+		for _, code := range []byte{200, 20, 27, 13, 31, 33} {
+			for L := range lens {
+				if code != 200 && L > 40 && L < 2100 && !(L%128 >= 122 || L%128 <= 6) {
+					continue // the full 1..2100 range for the raw-forwarded code; boundary windows (every multiple of 128) for the others
+				}
+				b := append([]byte{code}, bytes.Repeat([]byte{1}, L-1)...)
+				c12Run(c, c12Case{Pieces: []c12Piece{{Body: hex.EncodeToString(b)}, {Frame: "list"}}, Note: fmt.Sprintf("length sweep: code %d, body of %d bytes", code, L)}, false)
+				n++
+				nl++
+			}
+		}
+		c.Set("length_sweep_streams", nl)
+	}
 	// several large requests on ONE connection, in every order of sizes (per-connection buffers reused across requests)
 	{
 		multi := []string{"sign-k1-body5000", "sign-k1-body6000", "lock-pass6000", "unlock-wrong-pass7000-embedded-frames", "sign-cert", "sign-k1-body65536", "sign-k1-body262145", "sign-k1-body1048576"}
